@@ -11,7 +11,7 @@ import (
 func init() {
 	register(&Rule{ID: "PAIR-1", Doc: "a two-byte marker is matched consistently: where adjacent bytes of one slice (x[i], x[i+1]) are compared with constants in one condition, the test is `==`&&`==` (is the marker) or `!=`||`!=` (is not the marker); `!=`&&`!=` or `==`||`==` — the De Morgan slip that accepts anything sharing one byte with the marker — is reported", Run: rulePAIR1})
 	register(&Rule{ID: "FLAGMASK-1", Doc: "a block entered under Flags.Has(mask) only consults flags of that mask: every flag read with Get/Has inside the block (other than flags that are unconditional defaults of the enclosing function) is one of the mask's bits; otherwise the inner case is unreachable when only that flag is set, and the sibling (marshal/unmarshal) closure that keeps the full mask behaves differently. Sibling closures of one factory must test the same Has masks (one-sided flags excepted)", Run: ruleFLAGMASK1})
-	register(&Rule{ID: "FULL-1", Doc: "a scanner used as a validator must cover the whole input: outside package jsonwire the consumed-length result of jsonwire.ConsumeNumber/ConsumeString/ConsumeSimpleString/ConsumeLiteral is never discarded (a value with trailing garbage would pass)", Run: ruleFULL1})
+	register(&Rule{ID: "FULL-1", Doc: "a scanner used as a validator must cover the whole input: outside package jsonwire the consumed-length result of jsonwire.ConsumeNumber/ConsumeString/ConsumeSimpleString/ConsumeLiteral is never discarded (a value with trailing garbage would pass), and neither is the ok verdict of jsonwire.ParseUint/ParseHexUint16 (their value for refused input is a placeholder)", Run: ruleFULL1})
 	register(&Rule{ID: "SURR-1", Doc: "surrogate halves are only combined on utf16.DecodeRune's verdict: the result of every utf16.DecodeRune call is compared with utf8.RuneError (or unicode.ReplacementChar) in the statement that makes the call or before its first other use", Run: ruleSURR1})
 	register(&Rule{ID: "MONO-1", Doc: "`this value has a non-default representation` only ever grows: a bool local initialised from an arshaler's nonDefault field is afterwards only assigned `v = v || x` (or `if x { v = true }`); overwriting it with a lookup result forgets that the type itself had marshal methods (omitempty would then judge the Go value instead of the JSON output)", Run: ruleMONO1})
 	register(&Rule{ID: "POISON-1", Doc: "the decoder's poison byte is always undone when names are copied out: in copyQuotedBuffer the store that restores the opening quote is guarded by nothing but the test of that byte against invalidateBufferByte", Run: rulePOISON1})
@@ -269,6 +269,8 @@ func oneSidedFlags(p *Program) uint64 {
 func ruleFULL1(c *Ctx) {
 	p := c.P
 	n := 0
+	verdicts := map[string]bool{"ParseUint": true, "ParseHexUint16": true}
+	nv := 0
 	names := map[string]bool{"ConsumeNumber": true, "ConsumeString": true, "ConsumeSimpleString": true, "ConsumeLiteral": true, "ConsumeNull": true, "ConsumeTrue": true, "ConsumeFalse": true}
 	for _, f := range p.FuncsIn("json", "jsontext", "v1") {
 		if f.Body() == nil {
@@ -287,6 +289,15 @@ func ruleFULL1(c *Ctx) {
 					return true
 				}
 				cf := Callee(info, call)
+				if cf != nil && cf.Pkg() != nil && cf.Pkg().Path() == pkgAlias["jsonwire"] && verdicts[cf.Name()] && len(x.Lhs) == 2 {
+					// (value, ok): the value of a refused input is a placeholder (0 or MaxUint64)
+					nv++
+					ord["v:"+cf.Name()]++
+					id, isId := x.Lhs[1].(*ast.Ident)
+					c.Oblige(fmt.Sprintf("verdict-used:%s:%s#%d", f.Name, cf.Name(), ord["v:"+cf.Name()]), x.Pos(), !(isId && id.Name == "_"),
+						"the verdict of "+cf.Name()+" is discarded: for input it refuses (leading zeros, non-digits, overflow) the placeholder it returns is used as if it were the parsed number")
+					return true
+				}
 				if cf == nil || cf.Pkg() == nil || cf.Pkg().Path() != pkgAlias["jsonwire"] || !names[cf.Name()] {
 					return true
 				}
@@ -307,6 +318,7 @@ func ruleFULL1(c *Ctx) {
 		})
 	}
 	c.Floor("scanner calls outside jsonwire whose results are assigned", n, 10)
+	c.Floor("ParseUint/ParseHexUint16 calls outside jsonwire", nv, 8)
 }
 
 // ---- SURR-1 --------------------------------------------------------------------
